@@ -2,13 +2,17 @@
 C20 — the LIS deep test `bin_file_type._lis`, written out with the reader model of C05 and the index model of C06
 (core Lean only: the driver links this file).
 
-    lis_file = File.file_read_with_best_physical_record_pad_settings(fobj, '', pr_limit=100)
-    if lis_file is not None:
-        lis_index = FileIndexer.FileIndex(lis_file)
-        if len(lis_index): LIStr / LISt / LIS by lis_file._prh.tif.hasTif / isReversed
-    return ''            (also after ExceptionTotalDepthLIS, struct.error, ArithmeticError)
+    for pr_limit in (100, 0):
+        d = File.scan_file_with_different_padding(fobj, keep_going=True, pr_limit=pr_limit)
+        for pr_settings in File.ret_padding_options_with_max_records(d):
+            if d[pr_settings] == 0: break
+            try:
+                lis_file = File.FileRead(fobj, '', True, *pr_settings)
+                if len(FileIndexer.FileIndex(lis_file)): return LIStr / LISt / LIS by lis_file._prh.tif
+            except (ExceptionTotalDepthLIS, struct.error, ArithmeticError): pass
+    return ''
 
-* `TD.C05.bestReaderCfg b 100` is the pad-option scan and the constructor arguments of the reader that is returned;
+* `TD.C05.scanAll true b limit` is the pad-option scan, `TD.C05.retMax` the options with the maximal count in dict order;
 * the logical records the index is built from are obtained from that reader by the history
   `readLrBytes(-1); tellLr()` repeated until the end — `FileIndex` itself reads headers, sub-structures and skips, but
   `TD.C05.read_refines` holds for EVERY history, so on written files any history yields the same bytes at the same
@@ -21,7 +25,7 @@ import TD.C06.Model
 import TD.C20.Model
 
 namespace TD.C20
-open TD.C05 (COp Reply Rd Tif run bestReaderCfg)
+open TD.C05 (COp Reply Rd Tif run)
 
 /-- `readLrBytes(-1); tellLr()`, n times -/
 def lisOps : Nat → List COp
@@ -36,36 +40,61 @@ def collectRecs : List Reply → Option (List (Nat × List Nat))
   | [] => some []
   | _ => none
 
-/-- `pr_limit=100` in `_lis` -/
+/-- `pr_limit=100` of the first round of `_lis` (the second round scans the whole file: `pr_limit=0`) -/
 def lisPrLimit : Nat := 100
 
-/-- `bin_file_type._lis` on a file with content `b` -/
+/-- `LIStr` / `LISt` / `LIS` from `lis_file._prh.tif.hasTif / isReversed`: the TIF object is built by the constructor from
+the first 12 bytes of the file, whatever the pad option -/
+def tifCode (b : Bytes) : LisRes :=
+  if (Tif.init b).hasTif then (if (Tif.init b).isReversed then .listr else .list) else .lis
+
+/-- the body of the inner loop for one pad option: `FileRead(fobj, '', True, *pr_settings)`, `FileIndex(lis_file)`;
+`.ok (some code)` = returned, `.ok none` = empty index (loop goes on), `.error e` = the index raised (caught, loop goes on) -/
+def lisTryOptionE (b : Bytes) (o : Nat × Bool) : Except TD.C06.Err (Option LisRes) :=
+  match collectRecs (run ⟨true, o.1, o.2⟩ b (some (Rd.new b)) (lisOps (b.length + 1))) with
+  | none => .ok none                      -- the reader raised (ExceptionTotalDepthLIS)
+  | some recs =>
+    match TD.C06.fileIndex recs with
+    | .error e => .error e
+    | .ok es => if es.isEmpty then .ok none else .ok (some (tifCode b))
+
+def lisTryOption (b : Bytes) (o : Nat × Bool) : Option LisRes :=
+  match lisTryOptionE b o with
+  | .ok r => r
+  | .error _ => none
+
+/-- `for pr_settings in ret_padding_options_with_max_records(d): if d[pr_settings] == 0: break` — the options that get
+tried in one round, in dict order -/
+def lisTried (b : Bytes) (limit : Nat) : List (Nat × Bool) :=
+  let c := TD.C05.scanAll true b limit
+  (TD.C05.retMax c).takeWhile (fun o => (c.lookup o).getD 0 != 0)
+
+def firstSome {α β : Type} (f : α → Option β) : List α → Option β
+  | [] => none
+  | a :: r => match f a with
+    | some x => some x
+    | none => firstSome f r
+
+/-- one round of the outer loop: the first tried option that gives a non-empty index decides -/
+def lisRound (b : Bytes) (limit : Nat) : Option LisRes := firstSome (lisTryOption b) (lisTried b limit)
+
+/-- `bin_file_type._lis` on a file with content `b`: `for pr_limit in (100, 0)` -/
 def lisTest (b : Bytes) : LisRes :=
-  match bestReaderCfg b lisPrLimit with
-  | none => .none
-  | some cfg =>
-    match collectRecs (run cfg b (some (Rd.new b)) (lisOps (b.length + 1))) with
+  match lisRound b lisPrLimit with
+  | some r => r
+  | none =>
+    match lisRound b 0 with
+    | some r => r
     | none => .none
-    | some recs =>
-      match TD.C06.fileIndex recs with
-      | .error _ => .none
-      | .ok es =>
-        if es.isEmpty then .none
-        else if (Tif.init b).hasTif then (if (Tif.init b).isReversed then .listr else .list) else .lis
 
 /-- the C06 index model declares parts of the format outside its scope (`Err.unsupported`: floating X values of a data
-record other than integers in code 68, dipmeter channels, differing spacing/depth units, …): on such a record stream
-`lisTest` is not claimed to follow the code (the correspondence run skips these files and counts them) -/
+record other than integers in code 68, dipmeter channels, differing spacing/depth units, …): when a tried option meets
+such a record stream `lisTest` is not claimed to follow the code (the correspondence run skips these files and counts them) -/
 def lisTestInScope (b : Bytes) : Bool :=
-  match bestReaderCfg b lisPrLimit with
-  | none => true
-  | some cfg =>
-    match collectRecs (run cfg b (some (Rd.new b)) (lisOps (b.length + 1))) with
-    | none => true
-    | some recs =>
-      match TD.C06.fileIndex recs with
-      | .error .unsupported => false
-      | _ => true
+  (lisTried b lisPrLimit ++ lisTried b 0).all (fun o =>
+    match lisTryOptionE b o with
+    | .error .unsupported => false
+    | _ => true)
 
 /-- what `_lis` must answer for a layout: `LIS`, `LISt` (TIF markers), `LIStr` (reversed TIF markers) -/
 def lisCodeOf : TD.C05.TifMode → LisRes
